@@ -263,11 +263,26 @@ def runChain (j : Json) : P Json := do
          ("root_key_id", match c.rootKeyId with | some k => (k : Json) | none => Json.null),
          ("wire_bytes", Json.str (hex (Wire.encContainer c)))]
       else []
+    -- the signature version the rule of the code assigns to each block of an honest token
+    let sv : List (String × Json) := match fieldOpt j "datalog_versions", fieldOpt j "root_alg" with
+      | some dvj, some raj =>
+        match getArr dvj, getNat raj with
+        | .ok dvs, .ok rootAlg =>
+          let dv (i : Nat) : Option Nat := match dvs[i]? with | some (.num n) => some n.mantissa.toNat | _ => none
+          let auth := sigVersion rootAlg c.authority.nextKey.alg false (dv 0) []
+          let rec go (i : Nat) (signerAlg : Nat) (prev : List Nat) : List SBlock → List Nat
+            | [] => []
+            | b :: rest =>
+              let v := sigVersion signerAlg b.nextKey.alg b.ext.isSome (if b.ext.isSome then none else dv i) prev
+              v :: go (i + 1) b.nextKey.alg (prev ++ [v]) rest
+          [("sig_versions", Json.arr ((auth :: go 1 c.authority.nextKey.alg [auth] c.blocks).map (fun (n : Nat) => (n : Json))).toArray)]
+        | _, _ => []
+      | _, _ => []
     let pay : List (String × Json) := if mutation == "none" then
         [("payloads", Json.arr ((tokenTriples root c).map fun t =>
           Json.mkObj [("what", t.1), ("key", pubKeyOut t.2.1), ("msg", hex t.2.2.1), ("sig", hex t.2.2.2)]).toArray)]
       else []
-    pure (Json.mkObj (base ++ more ++ pay))
+    pure (Json.mkObj (base ++ more ++ pay ++ sv))
 
 /-- operations on a sealed container: each is decided by the model's state machine -/
 def runSealOps (j : Json) : P Json := do
